@@ -272,6 +272,8 @@ def mutants(spec):
         # -- unnamed module
         s = clone(); s["modules"][mi]["name"] = None; s["modules"][mi]["style"] = "proc"
         yield "unnamed_module", depth, s
+        s = clone(); s["modules"][mi]["name"] = ""; s["modules"][mi]["style"] = "proc"; s["modules"][mi].pop("bare", None)
+        yield "unnamed_module", depth + "/empty_string", s
     # -- name clash
     for a in mods:
         for b in mods:
